@@ -6,14 +6,51 @@ use std::sync::{Arc, Mutex};
 use taskchampion_sync_server_core::{Client, Snapshot, Storage, StorageTxn, Version};
 use uuid::Uuid;
 
+/// fault plan shared by a store and its open transactions: call index -> fail after effect?
+#[derive(Default)]
+pub struct Faults {
+    pub plan: Vec<(usize, bool)>,
+    pub count: usize,
+    pub fired: usize,
+}
+
 pub struct LogStore {
     pub inner: Box<dyn Storage>,
     pub log: Arc<Mutex<Vec<&'static str>>>,
+    pub faults: Arc<Mutex<Faults>>,
+}
+
+/// what to do with the current storage call: None = go ahead, Some(after)
+fn next_fault(f: &Arc<Mutex<Faults>>) -> Option<bool> {
+    let mut g = f.lock().unwrap();
+    let i = g.count;
+    g.count += 1;
+    let hit = g.plan.iter().find(|(k, _)| *k == i).map(|(_, a)| *a);
+    if hit.is_some() {
+        g.fired += 1;
+    }
+    hit
+}
+
+fn injected() -> anyhow::Error {
+    anyhow::anyhow!("injected storage fault")
 }
 
 impl LogStore {
     pub fn new<S: Storage + 'static>(s: S) -> Self {
-        LogStore { inner: Box::new(s), log: Arc::new(Mutex::new(Vec::new())) }
+        LogStore { inner: Box::new(s), log: Arc::new(Mutex::new(Vec::new())), faults: Arc::new(Mutex::new(Faults::default())) }
+    }
+    /// fail the given storage calls (index counted from the next call on; begin counts)
+    pub fn set_plan(&self, plan: Vec<(usize, bool)>) {
+        let mut g = self.faults.lock().unwrap();
+        g.plan = plan;
+        g.count = 0;
+        g.fired = 0;
+    }
+    pub fn clear_plan(&self) -> usize {
+        let mut g = self.faults.lock().unwrap();
+        g.plan.clear();
+        g.fired
     }
     pub fn take_log(&self) -> Vec<&'static str> {
         std::mem::take(&mut *self.log.lock().unwrap())
@@ -23,13 +60,23 @@ impl LogStore {
 struct LogTxn<'a> {
     inner: Option<Box<dyn StorageTxn + 'a>>,
     log: Arc<Mutex<Vec<&'static str>>>,
+    faults: Arc<Mutex<Faults>>,
 }
 
 impl Storage for LogStore {
     fn txn(&self, client_id: Uuid) -> anyhow::Result<Box<dyn StorageTxn + '_>> {
         self.log.lock().unwrap().push("begin");
+        match next_fault(&self.faults) {
+            Some(false) => return Err(injected()),
+            Some(true) => {
+                let t = self.inner.txn(client_id)?;
+                drop(t);
+                return Err(injected());
+            }
+            None => {}
+        }
         let t = self.inner.txn(client_id)?;
-        Ok(Box::new(LogTxn { inner: Some(t), log: self.log.clone() }))
+        Ok(Box::new(LogTxn { inner: Some(t), log: self.log.clone(), faults: self.faults.clone() }))
     }
 }
 
@@ -52,34 +99,98 @@ impl LogTxn<'_> {
 impl StorageTxn for LogTxn<'_> {
     fn get_client(&mut self) -> anyhow::Result<Option<Client>> {
         self.note("get_client");
+        match next_fault(&self.faults) {
+            Some(false) => return Err(injected()),
+            Some(true) => {
+                let _ = self.inner.as_mut().unwrap().get_client();
+                return Err(injected());
+            }
+            None => {}
+        }
         self.inner.as_mut().unwrap().get_client()
     }
     fn new_client(&mut self, latest_version_id: Uuid) -> anyhow::Result<()> {
         self.note("new_client");
+        match next_fault(&self.faults) {
+            Some(false) => return Err(injected()),
+            Some(true) => {
+                let _ = self.inner.as_mut().unwrap().new_client(latest_version_id);
+                return Err(injected());
+            }
+            None => {}
+        }
         self.inner.as_mut().unwrap().new_client(latest_version_id)
     }
     fn set_snapshot(&mut self, snapshot: Snapshot, data: Vec<u8>) -> anyhow::Result<()> {
         self.note("set_snapshot");
+        match next_fault(&self.faults) {
+            Some(false) => return Err(injected()),
+            Some(true) => {
+                let _ = self.inner.as_mut().unwrap().set_snapshot(snapshot, data);
+                return Err(injected());
+            }
+            None => {}
+        }
         self.inner.as_mut().unwrap().set_snapshot(snapshot, data)
     }
     fn get_snapshot_data(&mut self, version_id: Uuid) -> anyhow::Result<Option<Vec<u8>>> {
         self.note("get_snapshot_data");
+        match next_fault(&self.faults) {
+            Some(false) => return Err(injected()),
+            Some(true) => {
+                let _ = self.inner.as_mut().unwrap().get_snapshot_data(version_id);
+                return Err(injected());
+            }
+            None => {}
+        }
         self.inner.as_mut().unwrap().get_snapshot_data(version_id)
     }
     fn get_version_by_parent(&mut self, parent_version_id: Uuid) -> anyhow::Result<Option<Version>> {
         self.note("get_version_by_parent");
+        match next_fault(&self.faults) {
+            Some(false) => return Err(injected()),
+            Some(true) => {
+                let _ = self.inner.as_mut().unwrap().get_version_by_parent(parent_version_id);
+                return Err(injected());
+            }
+            None => {}
+        }
         self.inner.as_mut().unwrap().get_version_by_parent(parent_version_id)
     }
     fn get_version(&mut self, version_id: Uuid) -> anyhow::Result<Option<Version>> {
         self.note("get_version");
+        match next_fault(&self.faults) {
+            Some(false) => return Err(injected()),
+            Some(true) => {
+                let _ = self.inner.as_mut().unwrap().get_version(version_id);
+                return Err(injected());
+            }
+            None => {}
+        }
         self.inner.as_mut().unwrap().get_version(version_id)
     }
     fn add_version(&mut self, version_id: Uuid, parent_version_id: Uuid, history_segment: Vec<u8>) -> anyhow::Result<()> {
         self.note("add_version");
+        match next_fault(&self.faults) {
+            Some(false) => return Err(injected()),
+            Some(true) => {
+                let _ = self.inner.as_mut().unwrap().add_version(version_id, parent_version_id, history_segment);
+                return Err(injected());
+            }
+            None => {}
+        }
         self.inner.as_mut().unwrap().add_version(version_id, parent_version_id, history_segment)
     }
     fn commit(&mut self) -> anyhow::Result<()> {
         self.note("commit");
+        match next_fault(&self.faults) {
+            Some(false) => return Err(injected()),
+            Some(true) => {
+                let _ = self.inner.as_mut().unwrap().commit();
+                return Err(injected());
+            }
+            None => {}
+        }
         self.inner.as_mut().unwrap().commit()
     }
 }
